@@ -45,8 +45,14 @@ Definition pat_c06 (g : molg) : C06_Model.graph :=
 Definition DEFAULT_THRESHOLD : N := 5000%N.
 Definition eff_thr (embed_threshold : option N) : N :=
   match embed_threshold with Some k => k | None => DEFAULT_THRESHOLD end.
-Class Thr := { thr_val : N }.
-Definition thr_of (embed_threshold : option N) : Thr := {| thr_val := eff_thr embed_threshold |}.
+(** SynReactor(partial=True) ALSO derives a result limit from the same option:
+      max_results = self.embed_threshold / 100 if self.embed_threshold else None          (a float; 0 and None give None)
+    which the engines test as  `max_results and len(results) >= max_results` : the effective limit is ceil(k / 100)
+    ([pmax_of]; 0 encodes None as in model/C06_Model.v).  It only matters for [partial_matches]. *)
+Definition pmax_of (embed_threshold : option N) : N :=
+  match embed_threshold with Some k => ((k + 99) / 100)%N | None => 0%N end.
+Class Thr := { thr_val : N; pmax_val : N }.
+Definition thr_of (embed_threshold : option N) : Thr := {| thr_val := eff_thr embed_threshold; pmax_val := pmax_of embed_threshold |}.
 
 (** ** the verified enumerator lib/Mono.v with a lazily evaluated admissibility test.
     vm_compute is call-by-value: in Mono's [ok] the edge test over the whole partial map is evaluated even when the
@@ -85,6 +91,52 @@ Definition monos_on' (H P : C06_Model.graph) (hn pn : list N) : list mapping :=
 Definition matches (strat : N) (host : hostg) (pat : molg) : list mapping :=
   let H := host_c06 host in let P := pat_c06 pat in
   C06_Model.find (monos_on' H P) (cfg_of strat) H P.
+
+(** ** SynReactor(partial=True): the matcher is PartialMatcher(host, pattern, ["element","charge"], ["order"], strategy,
+    threshold = embed_threshold, pre_filter, max_results = None (embed_threshold not given), prune_auto = False) and the
+    raw matches are  matcher.get_mappings()  (synkit/Graph/Matcher/partial_matcher.py, single host, partial = True):
+      _pattern_ccs       = connected components of the pattern            (ValueError when there is none)
+      _host_embeddings   = per component: find_subgraph_mappings(host, component, strategy, strict_cc_count = False, threshold)
+      _match_all_k       = for k = n_cc, n_cc - 1, ..., 1: for combo in itertools.combinations(range(n_cc), k):
+                             _backtrack_components(combo): one embedding per selected component, pairwise disjoint in
+                             the host, merged into one (partial) mapping
+    [None] = the ValueError. *)
+Definition pcfg_of (strat : N) : C06_Model.cfg := C06_Model.Cfg strat pmax_val thr_val false false.
+
+Definition comp_embeddings (strat : N) (H P : C06_Model.graph) : list (list mapping) :=
+  map (fun pc => let Pc := LGraph.induced_sub P pc in C06_Model.find (monos_on' H Pc) (pcfg_of strat) H Pc) (C06_Model.comps P).
+
+(** itertools.combinations(l, k), lexicographic *)
+Fixpoint combos {X} (k : nat) (l : list X) : list (list X) :=
+  match k, l with
+  | O, _ => [[]]
+  | S _, [] => []
+  | S k', x :: r => map (cons x) (combos k' r) ++ combos k r
+  end.
+
+(** _backtrack_components: [used] = host nodes taken so far, [acc] = the merged mapping ({**accum, **emb}) *)
+Fixpoint pbt (embs : list (list mapping)) (used : list N) (acc : mapping) : list mapping :=
+  match embs with
+  | [] => [acc]
+  | lvl :: rest =>
+      flat_map (fun emb => if existsb (fun h => LGraph.mem h used) (map snd emb) then []
+                           else pbt rest (map snd emb ++ used) (acc ++ emb)) lvl
+  end.
+
+Definition match_all_k (embs : list (list mapping)) : list mapping :=
+  flat_map (fun k => flat_map (fun combo => pbt combo [] []) (combos k embs)) (rev (seq 1 (length embs))).
+
+(** with max_results = M > 0: every recursive call of _backtrack_components and every loop of _match_fixed_k / _match_all_k
+    stops as soon as M mappings have been collected, so the answer is the first M entries of the unlimited listing (of
+    the per-component lists, themselves limited to M by find_subgraph_mappings) *)
+Definition plimit {X} (l : list X) : list X := if (pmax_val =? 0)%N then l else firstn (N.to_nat pmax_val) l.
+
+Definition partial_matches (strat : N) (host : hostg) (pat : molg) : option (list mapping) :=
+  let H := host_c06 host in let P := pat_c06 pat in
+  match C06_Model.comps P with
+  | [] => None
+  | _ => Some (plimit (match_all_k (comp_embeddings strat H P)))
+  end.
 
 (** ** graph_automorphisms(rule.rc.raw): every node attribute except atom_map, every edge attribute *)
 Fixpoint lN_eqb (a b : list N) : bool :=
@@ -196,6 +248,13 @@ Definition side_okb_with (it : list mapping) (host : hostg) (p : prepared) : boo
   && nodupb (node_ids (p_rc p)) && simple_edgesb (gedges (p_rc p)) && closedb (p_rc p)
   && forallb (fun u => LGraph.mem u (node_ids (p_rc p))) (node_ids (p_pat p)).
 Definition side_okb (host : hostg) (p : prepared) : bool := side_okb_with (all_enum host p) host p.
+(** [side_okb] without the clause about the cap: the premises of the set-level theorem of the exhaustive strategy that
+    holds under EVERY cap (proof/C05_AnyCap.v); evaluated on every compared writing by [run_c05t] *)
+Definition side_okb0 (host : hostg) (p : prepared) : bool :=
+  let H := host_c06 host in let P := pat_c06 (p_pat p) in
+  negb (p_flag p) && C06_Model.gwfb H && C06_Model.gwfb P
+  && nodupb (node_ids (p_rc p)) && simple_edgesb (gedges (p_rc p)) && closedb (p_rc p)
+  && forallb (fun u => LGraph.mem u (node_ids (p_rc p))) (node_ids (p_pat p)).
 
 (** the limit-free component-aware computation and its longest intermediate list (= [comp_unl] / [comp_bound] of
     proof/C06_Comp.v, restated here so that the run function can evaluate the premise of the set-level theorem for the
@@ -295,9 +354,40 @@ Definition run_c05w (invert implicit_temp explicit_stage : bool) (strats : list 
       L [run_c05 invert implicit_temp explicit_stage strats (map (fun w => (fst (fst (fst w)), snd (fst (fst w)))) ws);
          tlist (fun w => tbool (rewriting_okb host0 tpl0 w)) ws]
   end.
+(** SynReactor(partial=True).mappings: raw (partial) matches and the matches kept by the symmetry pruning; the raw matches
+    are compared as a multiset of sets of pairs (VF2's order is not modelled), the kept ones by their number *)
+Definition t_partial (host : hostg) (p : prepared) (strat : N) : tok :=
+  match partial_matches strat host (p_pat p) with
+  | None => L [I (-1)]
+  | Some raw =>
+      (* under a result limit WHICH matches are kept depends on the enumeration order (VF2's is not modelled): numbers only *)
+      L [tnat (length raw); if (pmax_val =? 0)%N then tnat (length (prune (p_rc p) raw)) else L [];
+         if (pmax_val =? 0)%N then tset (tset (tpair tN tN)) raw else L []]
+  end.
+Definition t_variant_partial (invert implicit_temp : bool) (strats : list N) (v : hostg * its) : tok :=
+  match prepare invert implicit_temp (snd v) with
+  | None => L [I (-1)]
+  | Some p => L [tbool (p_flag p); tmolg (p_pat p); tlist (t_partial (fst v) p) strats]
+  end.
+Definition run_c05p_w (invert implicit_temp : bool) (strats : list N) (vs : list (hostg * its)) : tok :=
+  tlist (t_variant_partial invert implicit_temp strats) vs.
+
 End WithThr.
 
-(** the run function of the harness: [embed_threshold] is the constructor option of the reactor (None = not given) *)
+(** the run function of the harness: [embed_threshold] is the constructor option of the reactor (None = not given).
+    Third component: per compared writing, the cap-free premises [side_okb0] (or: the pattern keeps explicit X-H bonds). *)
+Definition okb0_of (invert implicit_temp : bool) (w : hostg * its * list (N * N) * list (N * N)) : bool :=
+  match prepare invert implicit_temp (snd (fst (fst w))) with
+  | None => false
+  | Some p => p_flag p || side_okb0 (fst (fst (fst w))) p
+  end.
 Definition run_c05t (embed_threshold : option N) (invert implicit_temp explicit_stage : bool) (strats : list N)
            (ws : list (hostg * its * list (N * N) * list (N * N))) : tok :=
-  @run_c05w (thr_of embed_threshold) invert implicit_temp explicit_stage strats ws.
+  match @run_c05w (thr_of embed_threshold) invert implicit_temp explicit_stage strats ws with
+  | L l => L (l ++ [tlist (fun w => tbool (okb0_of invert implicit_temp w)) ws])
+  | t => t
+  end.
+
+(** the partial-matching option: one case = the writings of one (template, substrate) pair *)
+Definition run_c05p (embed_threshold : option N) (invert implicit_temp : bool) (strats : list N) (vs : list (hostg * its)) : tok :=
+  @run_c05p_w (thr_of embed_threshold) invert implicit_temp strats vs.
